@@ -26,7 +26,10 @@ RULE = ("(faults) each case = a seeded program over three mutually calling funct
         "projection / recursive through .f, up to three nested calls); the failing tick k is enumerated over ALL N ticks x 2 "
         "exception classes, plus chains of up to three consecutive failing programs; evaluations = faulted runs judged; "
         "non-trivial = the fault fired inside a nested call (depth >= 1).  (subst) each case = one function body x argument tuple x "
-        "ALL call forms and ALL projection hole patterns / fill orders; distinct = (body, form) pairs")
+        "ALL call forms and ALL projection hole patterns / fill orders; distinct = (body, form) pairs; plus fixed histories: "
+        "recursion through .f (with locals, two functions nested, parameter-less functions), over with matrix rows, a projection "
+        "variable as verb of each, the same call after a global was reassigned; (faults) 1 case in 3 ends with 400 failing calls "
+        "three deep on one interpreter before the probes")
 EXHAUSTIVE_NOTE = "fault position enumerated exhaustively per program; projection hole patterns and fill orders enumerated exhaustively per function; programs sampled"
 ASSUMPTIONS = [
     "only state reachable through the public API is compared (globals, results of further programs, context depth)",
@@ -39,7 +42,9 @@ REAL_STUB = {
 }
 EXPECTED_PROBES = ["probe_fault_depth_1", "probe_fault_depth_2", "probe_fault_depth_3", "probe_fault_after_global_assignment", "probe_chain_of_failures",
                    "probe_natural_fault_undefined_fn", "probe_cond_false_branch", "probe_cond_true_branch", "probe_projection_call", "probe_recursion",
-                   "probe_subst_projection_patterns", "probe_subst_each", "probe_subst_over", "probe_subst_at"]
+                   "probe_subst_projection_patterns", "probe_subst_each", "probe_subst_over", "probe_subst_at",
+                   "probe_nested_recursions", "probe_nilad_calls", "probe_subst_over_matrix", "probe_subst_after_global_reassigned",
+                   "probe_subst_projection_as_each_verb", "probe_long_history_of_failed_calls"]
 WALL_CAP = {"quick": 400, "thorough": 3600}
 
 
